@@ -2,6 +2,7 @@ import Ebv.Lemmas.VerifRegs
 import Ebv.Lemmas.VerifStruct
 import Ebv.Lemmas.VerifStack
 import Ebv.Lemmas.VerifGen
+import Ebv.Lemmas.VerifImm
 /-! # C05 — every program the generator accepts loads into the kernel  (PARTIAL)
 
 The oracle of the property is the Linux verifier; no Lean model can be proved equal to it.  What is proved here is
@@ -18,7 +19,10 @@ about `MiniV.accepts` (`Ebv/Model/MiniVerifier.lean`), a model of the verifier r
   program text;
 * `step_frame` (in `Ebv/Lemmas/VerifRegs.lean`) ties `MiniV.defs` to `Ebpf.step`: registers outside `defs i` keep their value.
 
-The link to the generator (`owners_sound`) is in `Ebv/Lemmas/VerifGen.lean`.  `MiniV.accepts P = true` for the library's own
+The link to the generator (`owners_sound`) is in `Ebv/Lemmas/VerifGen.lean`; `Ebv/Lemmas/VerifImm.lean` proves the immediate part
+of rule (7) for the generator model: since `Binary.calculate` refuses constant shift counts outside the width of the operation
+and constant zero divisors (the former known findings const-shift-ge-width / const-div-zero, repaired in /repo), no accepted
+program contains one (`emitProg_imm_ok`), and the generator's check is exactly the verifier's rule (`badImm_exact`).  `MiniV.accepts P = true` for the library's own
 programs and the corpus is a *regenerated obligation* evaluated by `Drivers/C05.lean` on every run. -/
 namespace Ebv.C05
 open Ebv.Ebpf Ebv.MiniV
@@ -137,6 +141,13 @@ def EmitAccepts : Prop :=
     accepts prologue geo = true →            -- the code of `ArrayMap.init` followed by `r0 = 0; EXIT`
     accepts (prologue.dropLast.dropLast ++ code ++ [⟨0xb7, 0, 0, 0, 2⟩, ⟨0x95, 0, 0, 0, 0⟩]) geo = true
 
+/-- rules (5), (7) and the generator: an instruction of a program `MiniV.accepts` takes satisfies `immOk`, and so does every
+instruction of a program the generator model emits — on this rule the generator can no longer be the reason for a refusal -/
+theorem imm_rule_both_sides {prog : List Insn} {geo : MapGeometry} (h : accepts prog geo = true)
+    {p : Gen.Prog} {code : List Insn} (hp : Gen.emitProg p = .ok code) :
+    (∀ pc i, prog[pc]? = some i → isSecond prog pc = false → immOk i = true) ∧ (∀ i ∈ code, immOk i = true) :=
+  ⟨fun pc i hi hsec => wfInsn_immOk ((structOk_spec (accepts_table h).1).wf pc i hi hsec), emitProg_imm_ok hp⟩
+
 /-! ## non-vacuity -/
 
 /-- `ArrayMap.init` as the generator emits it, a store through the null-checked map value, `r0 = 2; exit` -/
@@ -158,7 +169,7 @@ example : accepts (demo.set 9 ⟨191, 8, 1, 0, 0⟩) demoGeo = false := by decid
 /-- the key bytes must be written before the helper reads them (unprivileged reading of rule 2) -/
 example : accepts (demo.set 1 ⟨98, 10, 0, -8, 0⟩) demoGeo = false ∧
     acceptsWith { allowUninitStack := true } (demo.set 1 ⟨98, 10, 0, -8, 0⟩) demoGeo = true := by decide +kernel
-/-- a 32-bit shift by 63 (what `db = vq >> 63` becomes): rule (7) -/
+/-- a 32-bit shift by 63 (what `db = vq >> 63` became before `Binary.calculate` refused it): rule (7) -/
 example : accepts [⟨183, 0, 0, 0, 2⟩, ⟨0xc4, 0, 0, 0, 63⟩, ⟨149, 0, 0, 0, 0⟩] [] = false := by decide +kernel
 /-- a jump into the second slot of LD_IMM64: rule (5) -/
 example : accepts [⟨5, 0, 0, 1, 0⟩, ⟨24, 0, 0, 0, 1⟩, ⟨0, 0, 0, 0, 0⟩, ⟨149, 0, 0, 0, 0⟩] [] = false := by decide +kernel
